@@ -202,6 +202,16 @@ func TestSim(t *testing.T) {
 	}
 	defer writeSummary()
 
+	var dump *bufio.Writer
+	if dp := os.Getenv("VERIF_DUMP_HASHES"); dp != "" {
+		f, err := os.Create(dp)
+		if err != nil {
+			t.Fatalf("create dump: %v", err)
+		}
+		defer f.Close()
+		dump = bufio.NewWriter(f)
+		defer dump.Flush()
+	}
 	for run := from; run < to; run++ {
 		if maxWall > 0 && time.Since(start) > maxWall {
 			sum.Infra = append(sum.Infra, fmt.Sprintf("watchdog: stopped at run %d after %v", run, time.Since(start)))
@@ -213,6 +223,9 @@ func TestSim(t *testing.T) {
 		keep := len(sum.Samples) < 3 && run-from < 3
 		res := execute(t, check, tier, NewGenTape(rs), keep)
 		sum.Runs++
+		if dump != nil {
+			fmt.Fprintf(dump, "%d %s %s %d\n", run, res.TraceHash, res.Verdict, len(res.Tape))
+		}
 		sum.Events += int64(res.Events)
 		sum.SimTimeNs += res.SimTimeNs
 		for k, v := range res.Faults {
